@@ -17,7 +17,7 @@ func init() {
 		Decided: "(b) the length queue and the byte buffer of the datagram pipe change together under one lock: a write appends len(p) and p, a read pops pLens[0] and reads exactly that many bytes and returns that count; " +
 			"(c) the short-buffer, EOF and timeout returns are reached without any change to the queue or the buffer, and the length test dominates the pop; (d) in unordered mode a datagram larger than the per-frame maximum is refused before anything is sent, and the refusal threshold is the same maximum the splitter uses; " +
 			"(e) nothing splits in unordered mode; (f) the client's per-source-address stream map is only touched under its mutex with the same key expression everywhere; (g) a stream's pipe is written only by its own recvFrame and the stream table is indexed by the decoded stream id.",
-		NotDecided: "(a)/(g') delivery and exactly-once while healthy (run-time, network); UDP socket behaviour; bytes.Buffer returning short (contract assumed).",
+		NotDecided:  "(a)/(g') delivery and exactly-once while healthy (run-time, network); UDP socket behaviour; bytes.Buffer returning short (contract assumed).",
 		Assumptions: []string{"bytes.Buffer.Read(p) returns len(p) bytes when at least that many are buffered"},
 	})
 }
